@@ -118,6 +118,52 @@ static void run_ambig(uint64_t idx, pv_rng* rng) {
     free(ex);
 }
 
+/* tokens recognised by THREE or more languages at once (4-letter abbreviations shared by several Latin lists):
+ * auto-detection must still say MULT_LANG, whatever the number of matching languages */
+static unsigned* g_m3_idx[PV_MAXLANG]; static uint16_t* g_m3_mask[PV_MAXLANG]; static int g_m3_n[PV_MAXLANG]; static bool g_m3_done;
+static void m3_prepare(void) {
+    if (g_m3_done) return;
+    for (int a = 0; a < pv_nlangs; ++a) {
+        pv_mlang* A = &pv_langs[a];
+        g_m3_idx[a] = pv_xmalloc(PV_NWORDS * sizeof(unsigned)); g_m3_mask[a] = pv_xmalloc(PV_NWORDS * sizeof(uint16_t)); g_m3_n[a] = 0;
+        if (!A->lib) continue;
+        for (unsigned w = 0; w < PV_NWORDS; ++w) {
+            const uint32_t* cp = A->accents ? A->scp[w] : A->cp[w]; int n = A->accents ? A->nscp[w] : A->ncp[w];
+            int tn = (A->prefix && n > 4) ? 4 : n;
+            uint16_t mask = 0; int cnt = 0;
+            for (int b = 0; b < pv_nlangs; ++b) { int idx, nm; if (pv_langs[b].lib && pv_m_match_cp(&pv_langs[b], cp, tn, &idx, &nm) == PV_ACCEPT) { mask |= (uint16_t)(1u << b); ++cnt; } }
+            if (cnt >= 3) { g_m3_idx[a][g_m3_n[a]] = w; g_m3_mask[a][g_m3_n[a]] = mask; g_m3_n[a]++; }
+        }
+    }
+    g_m3_done = true;
+}
+static uint64_t n_multi3(void) { return (uint64_t)pv_nlangs * pv_scaled(300, 10000); }
+static void run_multi3(uint64_t idx, pv_rng* rng) {
+    m3_prepare();
+    int a = (int)(idx % (uint64_t)pv_nlangs); pv_mlang* A = &pv_langs[a];
+    if (g_m3_n[a] < 16) { PV_COUNT("multi3.language_has_too_few_shared_tokens", 1); return; }
+    /* anchor on one word's language set; collect the words whose set contains at least the same three languages */
+    int k0 = (int)pv_randn(rng, (uint32_t)g_m3_n[a]); uint16_t want = g_m3_mask[a][k0];
+    int pool[PV_NWORDS], np = 0;
+    for (int k = 0; k < g_m3_n[a]; ++k) if ((g_m3_mask[a][k] & want) == want) pool[np++] = k;
+    if (np < 8) { PV_COUNT("multi3.pool_too_small", 1); return; }
+    char ph[1024]; size_t pos = 0;
+    for (int i = 0; i < 16; ++i) {
+        unsigned w = g_m3_idx[a][pool[pv_randn(rng, (uint32_t)np)]];
+        const uint32_t* cp = A->accents ? A->scp[w] : A->cp[w]; int n = A->accents ? A->nscp[w] : A->ncp[w];
+        int tn = (A->prefix && n > 4) ? 4 : n;
+        for (int c = 0; c < tn; ++c) pos += (size_t)pv_utf8_encode(cp[c], ph + pos);
+        if (i < 15) ph[pos++] = ' ';
+    }
+    ph[pos] = 0;
+    char* ex = pv_exact_str(ph);
+    int nl = 0; for (int b = 0; b < pv_nlangs; ++b) nl += (want >> b) & 1;
+    pv_countf(1, "multi3.phrases_recognised_by_%d_languages", nl);
+    PV_COUNT("multi3.constructed", 1);
+    check_string(ex, pv_gen_coin(rng), "three-or-more-languages", rng, idx % 4 == 0);
+    free(ex);
+}
+
 /* precedence on phrases built to be simultaneously wrong in several ways */
 static uint64_t n_prec(void) { return pv_scaled(8000, 200000); }
 static void run_prec(uint64_t idx, pv_rng* rng) {
@@ -135,6 +181,6 @@ static void run_prec(uint64_t idx, pv_rng* rng) {
 }
 
 int main(int argc, char** argv) {
-    static const pv_section secs[] = { { "grammar", n_grammar, run_grammar }, { "ambiguous", n_ambig, run_ambig }, { "precedence", n_prec, run_prec } };
-    return pv_main(argc, argv, "C09", secs, 3, init, NULL);
+    static const pv_section secs[] = { { "grammar", n_grammar, run_grammar }, { "ambiguous", n_ambig, run_ambig }, { "multi3", n_multi3, run_multi3 }, { "precedence", n_prec, run_prec } };
+    return pv_main(argc, argv, "C09", secs, 4, init, NULL);
 }
